@@ -318,20 +318,26 @@ func bufioCorr(w *W) {
 
 	// (a2) every sample rune x every way of cutting it x buffer offsets around the end of the buffer
 	for si, smp := range utf8Samples {
-		idx, mine := w.Case()
-		if !mine {
-			continue
-		}
-		w.Begin(idx, smp, "bufio-corr:rune-splits")
 		for cuts := 0; cuts < 1<<(len(smp)-1); cuts++ {
+			idx, mine := w.Case()
+			if !mine {
+				continue
+			}
+			w.Begin(idx, smp, "bufio-corr:rune-splits")
 			for _, size := range []int{16, -1} {
 				cap := 16
 				if size < 0 {
 					cap = 4096
 				}
-				for _, pre := range []int{0, 1, cap - 4, cap - 3, cap - 2, cap - 1, cap} {
+				pres := []int{0, 1, cap - 4, cap - 3, cap - 2, cap - 1, cap}
+				emptiesL := []int{0, 1}
+				if size < 0 && !w.Thorough() { // each of these scripts costs ~4100 operations
+					pres = []int{cap - 3, cap - 2, cap - 1}
+					emptiesL = []int{si % 2}
+				}
+				for _, pre := range pres {
 					for _, withEOF := range []bool{false, true} {
-						for _, empties := range []int{0, 1} {
+						for _, empties := range emptiesL {
 							spec := &scriptSpec{}
 							if pre > 0 {
 								spec.add(bytes.Repeat([]byte("a"), pre), "n", 1)
@@ -575,7 +581,7 @@ func straddlers(w *W) []string {
 	}
 	deltas := []int{-34, -33, -32, -31, -30, -9, -8, -7, -6, -5, -4, -3, -2, -1, 0, 1, 2}
 	if !w.Thorough() {
-		deltas = []int{-33, -32, -31, -8, -4, -3, -2, -1, 0, 1}
+		deltas = []int{-33, -32, -31, -4, -1, 0}
 	}
 	var out []string
 	for _, B := range []int{4096, 8192} {
